@@ -51,6 +51,7 @@ type sseClientTransport struct {
 	closed       atomic.Bool   // Flag indicating if transport is closed.
 	retryConfig  *retry.Config // Retry configuration for requests.
 	endpointChan chan struct{} // Channel to signal when endpoint is received.
+	endpointOnce sync.Once     // endpointChan is closed once, however many endpoint events arrive.
 	logger       Logger        // Logger for this client transport.
 
 	// Fields for HTTP request handler configuration
@@ -293,8 +294,11 @@ func (t *sseClientTransport) handleEndpointEvent(endpointURL string) {
 		parsedURL = t.baseURL.ResolveReference(parsedURL)
 	}
 
-	t.endpoint = parsedURL
-	close(t.endpointChan) // Signal that the endpoint has been received.
+	// A server may repeat the endpoint event; only the first one is used and signalled.
+	t.endpointOnce.Do(func() {
+		t.endpoint = parsedURL
+		close(t.endpointChan) // Signal that the endpoint has been received.
+	})
 }
 
 // handleMessageEvent processes message events from the server.
